@@ -66,7 +66,14 @@ fn strategy() -> BoxedStrategy<Case> {
         vec((key.clone(), rval_any(6)), 0..3),
         vec((key, rval_any(6)), 0..2),
         0u8..5,
-        prop_oneof![4 => Just(None), 1 => "[ -~]{0,30}".prop_map(Some), 1 => Just(Some("törrent nöt regïstered".to_string()))],
+        prop_oneof![
+            8 => Just(None),
+            2 => "[ -~]{0,30}".prop_map(Some),
+            2 => Just(Some("törrent nöt regïstered".to_string())),
+            // long reasons; multi-byte characters fall on every offset modulo small powers of two over the run
+            1 => (0usize..1100, "[a-zé€ ]{0,40}").prop_map(|(n, tail)| Some(format!("{}{}{}", "x".repeat(n), "é€ü", tail))),
+            1 => (1usize..700).prop_map(|n| Some("é".repeat(n))),
+        ],
         prop_oneof![4 => Just(vec![]), 1 => vec(rval_any(6), 1..3)],
     )
         .prop_map(|(interval, entries, extra_top, extra_entry, rot, failure, trailing)| Case { interval, entries, extra_top, extra_entry, rot, failure, trailing })
@@ -152,6 +159,7 @@ pub fn check(c: &Case) -> Outcome {
     o.nontrivial = between || c.failure.is_some();
     o.class_if(between, "malformed-entry-between-good-ones");
     o.class_if(c.failure.is_some(), "failure-reason");
+    o.class_if(c.failure.as_ref().map(|f| f.len() > 256).unwrap_or(false), "long-failure-reason");
     o.class_if(n_bad > 0, "some-malformed-entry");
     o.class_if(c.entries.is_empty(), "no-peers");
     let res = match catch(|| rdest::TrackerResp::from_bencode(&doc)) {
